@@ -1006,6 +1006,12 @@ class Interp:
             raise Raised("AttributeError")  # a builtin value (bytes, float, Ellipsis, ...) that simply has no such attribute
         if isinstance(obj, (bytes, float, complex)):
             return ("native", obj, attr)
+        if type(obj).__module__.startswith("sa.rules."):
+            # an instance of a class synthesised by a rule (never griffe's or an analysed project's code): its attributes are what Python says
+            try:
+                return getattr(obj, attr)
+            except AttributeError:
+                raise Raised("AttributeError") from None
         raise AnalysisError(f"attribute access `{attr}` on {type(obj).__name__} not modelled")
 
     def _is_int_enum(self, cls: ClassInfo) -> bool:
